@@ -105,6 +105,16 @@ Theorem C14_save_truncating_before_lock_refuted :
 Proof. exact save_truncating_before_lock_refuted. Qed.
 Print Assumptions C14_save_truncating_before_lock_refuted.
 
+(* ... and saveStdoutSize done as Load ; Save (two critical sections; seeded mutation) instead of the
+   one locked read-modify-write of the code: the update between them is lost *)
+Theorem C14_load_then_save_refuted :
+  let c := run true loadsave_sched (init (FRec (0, 0)) loadsave_and_writer) in
+  all_done c = true /\ c_lock c = None /\
+  upd_fns (c_order c) = [inc_fst] /\ c_file c = FRec (0, 0) /\
+  apply_all (upd_fns (c_order c)) (0, 0) = (1, 0).
+Proof. exact load_then_save_refuted. Qed.
+Print Assumptions C14_load_then_save_refuted.
+
 (* non-vacuity: with the lock, the schedule of the refutation (completed) loses nothing *)
 Example C14_nonvacuous :
   let c := run true (lost_sched ++ [1; 1; 1; 1; 1; 1; 1]%nat) (init (FRec (0, 0)) two_writers) in
